@@ -70,7 +70,7 @@ def correspondence(ctx):
     for sc in jmlib.SCENARIOS:
         for k in range(n):
             if k % 3 == 2:
-                op, args = jmlib.collection_case(g, sc, degen_rate=0.05)
+                op, args = jmlib.collection_case(g, sc, degen_rate=0.05, mixed_scale=True)
                 cases.append((sc, op, args))
             else:
                 op, args = jmlib.single_case(g, sc)
